@@ -63,6 +63,9 @@ R = {
  "C25r2_b": ("C25", "missed", "needs std::thread::panicking() during unwinding, which Kani does not model"),
  "C28r2_a": ("C28", "caught", "C28.timeout_time_eq_saturating_spec / overflow check inside get_timeout_time"),
  "C28r2_b": ("C28", "inconclusive (exit 2)", "the closed-form rewrite has no loop (the Verus splice anchor is gone) and in the Kani companion unit the back end ends with status ERROR on every check (128-bit div_ceil/% exhausts the solver); undecided, never an alarm"),
+ "C09r3_a": ("C09", "missed", "the change sits in the body of Suspender::until_with, which the C09 units represent by its transcribed contract `push, then yield` (thread_local! bodies with drop glue ICE Kani 0.68): a listed assumption, so a change inside it is invisible; OK with 4296/4296 obligations"),
+ "C11r3_a": ("C11", "caught", "C11.running_is_live_workers_after_a_state_report (c11_listener_counts_ended_workers: new state Error, running not lowered)"),
+ "C24r3_a": ("C24", "caught", "C24.in_bounds_iff_inside_some_segment (stack pointer == stack_bottom), C24.fault_inside_the_stack_segments_is_not_reported_as_overflow"),
 }
 HERE = os.path.dirname(os.path.dirname(os.path.abspath(__file__)))
 rows = []
